@@ -40,7 +40,8 @@ Vals(k) ==
                         <<8, 49, 50>>,
                         <<3, 1, 2, 3, 4, 5, 6, 7, 8, 9, 10, 11, 12, 13, 14>> >>
     [] k = "octets" -> << <<>>, <<1>>, <<1, 2>>, <<1, 2, 3>>, <<1, 2, 3, 4>>, <<1, 2, 3, 4, 5>>, <<0, 0, 0, 0, 0, 0, 0, 255>> >>
-    [] k = "utf8"   -> << <<>>, <<97>>, <<97, 98, 99, 100, 101>> >>
+    \* (the last two end in U+0000, which is a character like any other: one NUL, and NULs across a word boundary)
+    [] k = "utf8"   -> << <<>>, <<97>>, <<97, 98, 99, 100, 101>>, <<97, 0>>, <<97, 98, 99, 0, 0>> >>
     [] k = "ident"  -> << <<104, 46, 120>>, <<>> >>
     [] k = "uri"    -> << <<97, 97, 97, 58, 47, 47, 104>> >>
     [] k = "ipfilter" -> << <<112, 101, 114, 109, 105, 116>> >>
@@ -108,6 +109,8 @@ Hdrs == {H0}
         \cup {H(1, f, C4(VApp), <<1, 2, 3, 4>>, <<5, 6, 7, 8>>) : f \in {0, 64, 192, 32, 16, 240, 255, 15}}
         \cup {H(1, 128, C4(VApp), a, b) : a \in Ids, b \in Ids}
         \cup {H(v, 128, C4(VApp), <<1, 2, 3, 4>>, <<5, 6, 7, 8>>) : v \in {0, 2, 255}}
+        \* command codes with the top bit of the 24-bit field set (defined in the verification dictionary)
+        \cup {[H0 EXCEPT !.cmd = Enc24(c)] : c \in {8388635, 16777214}}
 
 Init == msg \in {[hdr |-> h, avps |-> <<>>] : h \in Hdrs}
 Limit(m) == IF m.hdr = H0 THEN MaxAVPs ELSE HdrAVPs
